@@ -295,6 +295,71 @@ def lean_bool(b: bool) -> str:
     return "true" if b else "false"
 
 
+class _FakeDtype:
+    """stand-in for np.dtype when the accumulator-selection code of the library is executed on its whole (finite) domain"""
+
+    def __init__(self, name):
+        self.name = name
+        self.kind = {"float": "f", "int": "i", "uint": "u", "bool": "b", "datetime64": "M", "timedelta64": "m"}[name.rstrip("0123456789")]
+        self.itemsize = int("".join(c for c in name if c.isdigit()) or 8) // 8 if self.kind in "iuf" else (1 if self.kind == "b" else 8)
+
+    def __eq__(self, other):
+        return isinstance(other, _FakeDtype) and other.name == self.name or other == self.name
+
+    def __hash__(self):
+        return hash(self.name)
+
+    def __str__(self):
+        return self.name
+
+
+class _FakeNumpy:
+    nan = "nan"
+
+    @staticmethod
+    def dtype(x):
+        return x if isinstance(x, _FakeDtype) else _FakeDtype("bool" if x is bool else str(x))
+
+    @staticmethod
+    def zeros(shape, dtype=None):
+        return ("zeros", "0", str(_FakeNumpy.dtype(dtype)))
+
+    @staticmethod
+    def full(shape, value, dtype=None):
+        return ("full", str(value), str(_FakeNumpy.dtype(dtype)))
+
+    @staticmethod
+    def empty(shape, dtype=None):
+        return ("empty", "-", str(_FakeNumpy.dtype(dtype)))
+
+
+# (datetime64 / timedelta64 values reach the kernels as int64 views: _cast_timestamps_to_ints)
+DTYPE_NAMES = ["float64", "float32", "int64", "int32", "int16", "int8", "uint64", "uint32", "uint16", "uint8", "bool"]
+
+
+def dtype_tables(numba_t, numba_src, util_t, util_src, scalar_names) -> str:
+    """`_build_target_for_groupby` executed (its own source text, against a stub numpy) on every dtype x operation:
+    the accumulator dtype and initial value the kernels start from"""
+    fn = find_func(numba_t, "_build_target_for_groupby")
+    src = ast.get_source_segment(numba_src, fn)
+    ns = {"np": _FakeNumpy, "_null_value_for_numpy_type": lambda t: "null"}
+    try:
+        exec(compile(src, "<_build_target_for_groupby>", "exec"), ns)
+    except Exception as e:  # noqa
+        raise TranslateError(f"_build_target_for_groupby cannot be executed on stubs: {e!r}")
+    ops = sorted(set(scalar_names) | {"count", "nancount", "sum_squares", "nansum_squares", "first", "last", "nanfirst", "nanlast"})
+    rows = []
+    for dn in DTYPE_NAMES:
+        for op in ops:
+            try:
+                kind, init, target = ns["_build_target_for_groupby"](_FakeDtype(dn), op, 1)
+            except Exception as e:  # noqa
+                kind, init, target = "error", type(e).__name__, "-"
+            rows.append(f'  ("{dn}", "{op}", "{target}", "{init}")')
+    return ("\nnamespace GV.Generated.Dtypes\n\n/-- (value dtype, operation, accumulator dtype, initial value) -/\n"
+            "def targetTable : List (String × String × String × String) := [\n" + ",\n".join(rows) + "\n]\n\nend GV.Generated.Dtypes\n")
+
+
 def generate() -> dict[str, str]:
     numba_src = (REPO / "groupby_lib/groupby/numba.py").read_text()
     util_src = (REPO / "groupby_lib/util.py").read_text()
@@ -351,6 +416,7 @@ def generate() -> dict[str, str]:
     ]:
         consts.append((nm, "Bool", lean_bool(has_neg_key_guard(fn, kv))))
     consts.append(("chunkedFactorizeThreshold", "Nat", str(module_int_constant(core_t, "THRESHOLD_FOR_CHUNKED_FACTORIZE"))))
+    files["Dtypes.lean"] = head + dtype_tables(numba_t, numba_src, util_t, util_src, sf_names)
     body = "\n".join(f"def {n} : {t} := {v}" for n, t, v in consts)
     files["Constants.lean"] = head + "\nnamespace GV.Generated.Constants\n\n" + body + "\n\nend GV.Generated.Constants\n"
     return files
